@@ -77,7 +77,19 @@ func routeOpts() []opt {
 	for i := range annotKeys {
 		out = append(out, opt{"annot", i})
 	}
+	// a nil VALUE under a valid key: it replaces an earlier value like any other
+	out = append(out, opt{"annotnil", 0}, opt{"annotnil", 2})
 	return out
+}
+
+// nilValue marks a key whose last value is nil in the model
+const nilValue = -1
+
+func annotOK(got any, want int, has bool) bool {
+	if !has || want == nilValue {
+		return got == nil
+	}
+	return got == want
 }
 
 func toGlobal(o opt, seq int) fox.GlobalOption {
@@ -120,6 +132,8 @@ func toRoute(o opt, seq int) fox.RouteOption {
 		return fox.WithMiddleware(recMw(fmt.Sprintf("r%d", seq)))
 	case "annot":
 		return fox.WithAnnotation(annotKeys[o.Arg].key(), seq)
+	case "annotnil":
+		return fox.WithAnnotation(annotKeys[o.Arg].key(), nil)
 	}
 	panic("bad route option")
 }
@@ -175,6 +189,11 @@ func (m *model) apply(o opt, seq int, global bool) {
 			m.annots = map[int]int{}
 		}
 		m.annots[o.Arg] = seq
+	case "annotnil":
+		if m.annots == nil {
+			m.annots = map[int]int{}
+		}
+		m.annots[o.Arg] = nilValue
 	}
 }
 
@@ -287,7 +306,7 @@ func evalCase(cs Case) (class, msg string) {
 			got = rt.Annotation(k.key())
 		}()
 		want, ok := rm.annots[i]
-		if (ok && got != want) || (!ok && got != nil) {
+		if !annotOK(got, want, ok) {
 			return "wrong-annotation", fmt.Sprintf("Annotation(%s) = %v, want %v (present=%v): %s", k.name, got, want, ok, desc)
 		}
 	}
@@ -572,7 +591,7 @@ func runShared(c *mc.Ctx, r *mc.Result) {
 						}
 						got := rt.Annotation(k.key())
 						want, has := m.annots[ki]
-						if (has && got != want) || (!has && got != nil) {
+						if !annotOK(got, want, has) {
 							msg = fmt.Sprintf("Annotation(%s) = %v, want %v (present=%v)", k.name, got, want, has)
 						}
 					}
